@@ -106,6 +106,29 @@ def _ref(Q: Any) -> RefPoint:
     return None if Q[1] == 0 else (Q[0], Q[1])
 
 
+def _weak_curve_verdict(ctx: Ctx, t: Any) -> None:
+    """The constructor's default weakness check on a curve it accepts without it: refused (a library
+    exception) exactly when the curve is anomalous (n == p) or its embedding degree -- the order of p
+    modulo n -- is under 100, which is the documented rule (SEC 1 v.2 3.1.1.2.1 step 8)."""
+    p, n = t[0], t[4]
+    degree = next((i for i in range(1, n + 1) if pow(p, i, n) == 1), None) if n != p else None
+    weak = n == p or (degree is not None and degree < 100)
+    try:
+        Curve(*t)
+        verdict = "accepted"
+    except BTClibException:
+        verdict = "refused"
+    except Exception as e:  # noqa: BLE001
+        verdict = f"{type(e).__name__}: {e}"
+    ctx.probe(f"weak-curve:{'weak' if weak else 'strong'}")
+    if degree is not None and 90 <= degree <= 110:
+        ctx.probe(f"embedding-degree:{degree}")
+    ctx.check(
+        P, "weak-curve-refused-iff-documented", verdict == ("refused" if weak else "accepted"),
+        lambda: f"Curve{t} with the default weakness check was {verdict}; n {'==' if n == p else '!='} p, embedding degree {degree}", site="Curve.__init__",
+    )
+
+
 class W:
     """One run's state."""
 
@@ -115,6 +138,7 @@ class W:
         if kind == "toy":
             ec, ref, t = gc.toy_curve(ctx)
             self.label = f"toy:p={t[0]},a={t[1]},b={t[2]},G={t[3]},n={t[4]},h={t[5]}"
+            _weak_curve_verdict(ctx, t)
         else:
             names = [k for k in sorted(CURVES) if CURVES[k].p.bit_length() <= int(ctx.cfg.get("max_bits", 521))]
             name = "secp256k1" if kind == "secp256k1" else ctx.ch.pick(names, "curve.name")
